@@ -395,6 +395,10 @@ func (p *pdr) parseFTEID(teidIE *ie.IE) error {
 	if fteid.HasCh() {
 		p.UPAllocateFteid = true
 	} else if teid != 0 {
+		if fteid.IPv4Address == nil {
+			return ErrUnsupported("F-TEID without IPv4 address", teid)
+		}
+
 		p.tunnelTEID = teid
 		p.tunnelTEIDMask = 0xFFFFFFFF
 		p.tunnelIP4Dst = ip2int(fteid.IPv4Address)
